@@ -158,6 +158,19 @@ Theorem C09_shared_speed_at_reference : forall log_g delta xi tau : R,
 Proof. exact gen_shared_at_reference. Qed.
 Print Assumptions C09_shared_speed_at_reference.
 
+(** ---- the mixture model (own copy of the node functions) and the joint model (longitudinal part) follow the same
+    documented logistic curve, hence its range, monotonicity and reference value ([doc_logistic_range/_monotone/_at_reference]) *)
+Theorem C09_mixture_logistic : forall log_g log_v0 xi tau w t : R,
+  gen_mixture_traj_w log_g log_v0 xi tau w t = doc_logistic (exp log_g) (exp log_v0) xi tau w t.
+Proof. exact tie_mixture_traj_w. Qed.
+Print Assumptions C09_mixture_logistic.
+
+Theorem C09_joint_longitudinal : forall log_g log_v0 xi tau w t : R,
+  gen_joint_traj_w log_g log_v0 xi tau w t = doc_logistic (exp log_g) (exp log_v0) xi tau w t /\
+  gen_joint_traj log_g log_v0 xi tau t = doc_logistic (exp log_g) (exp log_v0) xi tau 0 t.
+Proof. intros. split; [apply tie_joint_traj_w | apply tie_joint_traj]. Qed.
+Print Assumptions C09_joint_longitudinal.
+
 (** ---- estimate: layout.  [f i t] is the row of individual i at age t (what the theorems above describe);
     [pointwise f] computes a list of ages age by age, which is how the closed forms act on the age tensor. *)
 Section EstimateLayout.
